@@ -1886,7 +1886,10 @@ class Memoer(Tymee):
         zbz = (self.size - zoz)  # max zeroth gram body size >=1
         nbz = (self.size - noz)  # max non-zeroth gram body size >=1
         ml = len(memo)
-        gc = math.ceil((ml+nbz-zbz)/nbz)
+        if ml <= zbz:  # fits in zeroth gram whatever the non-zeroth body size is
+            gc = 1
+        else:
+            gc = 1 + math.ceil((ml-zbz)/nbz)
         mms = min(self.MaxMemoSize, (nbz*(self.MaxGramCount-1) + zbz))  # max memo payload
         if ml > mms:
             raise hioing.MemoerError(f"Memo length={ml} exceeds max={mms}")
